@@ -100,6 +100,11 @@ func gen(t *rapid.T) Case {
 			} else {
 				s.Text = rapid.SampledFrom([]string{"", "/z"}).Draw(t, "mkFree")
 			}
+			if rapid.IntRange(0, 9).Draw(t, "mkFaulty") == 0 {
+				// a facade over text no route can be built from: creating it is not a Router call, so nothing may happen
+				// until a call goes through it, and that call behaves like the Router call on the concatenated text
+				s.Text = rapid.SampledFrom([]string{"/{}", "/{id}/{id}", "/{", "}", "/{x:[}", "/{-}", "/{:d}", "{x}{y}", ""}).Draw(t, "mkFaultyText")
+			}
 			c.Steps = append(c.Steps, s)
 			objs = append(objs, gobj{acc: o.acc + s.Text, res: s.Res})
 		case k < 12:
@@ -212,6 +217,7 @@ func check(c Case, st *rig.Stats) error {
 	var classes []string
 	registrations := 0
 	cleaned := false // a Prefix.Clean happened: its translation prunes differently
+	outsideEver := false
 	for si, s := range c.Steps {
 		when := fmt.Sprintf("after step %d %+v (program %+v)", si, s, c.Steps[:si+1])
 		o := objs[s.Obj]
@@ -224,15 +230,22 @@ func check(c Case, st *rig.Stats) error {
 			}
 			ms := mk(s.MWs)
 			n := &obj{acc: o.acc + s.Text, res: s.Res, lists: append(append([][]types.Middleware[*rig.H]{}, o.lists...), ms)}
-			switch {
-			case s.Res && o.prefix == nil:
-				n.resource = fac.Resource(s.Text, ms...)
-			case s.Res:
-				n.resource = o.prefix.Resource(s.Text, ms...)
-			case o.prefix == nil:
-				n.prefix = fac.Prefix(s.Text, ms...)
-			default:
-				n.prefix = o.prefix.Prefix(s.Text, ms...)
+			if v, panicked := rig.Try(func() {
+				switch {
+				case s.Res && o.prefix == nil:
+					n.resource = fac.Resource(s.Text, ms...)
+				case s.Res:
+					n.resource = o.prefix.Resource(s.Text, ms...)
+				case o.prefix == nil:
+					n.prefix = fac.Prefix(s.Text, ms...)
+				default:
+					n.prefix = o.prefix.Prefix(s.Text, ms...)
+				}
+			}); panicked {
+				return rig.Violf("facade-creation-panicked", "%s: creating the facade object panicked: %v (it stands for no Router call)", when, v)
+			}
+			if _, err := pat.Parse(n.acc, ic); err != nil && (s.Res || strings.Count(n.acc, "{") != strings.Count(n.acc, "}")+1) {
+				classes = append(classes, "facade-over-malformed-text")
 			}
 			n.lists[len(n.lists)-1] = append([]types.Middleware[*rig.H]{}, ms...)
 			for i := range ms {
@@ -340,6 +353,12 @@ func check(c Case, st *rig.Stats) error {
 			if !dpan {
 				model.Handle(pattern, h.ID, methods)
 				registrations++
+				if _, err := pat.Parse(pattern, ic); err != nil {
+					// accepted by the router, but outside the pattern grammar the properties are stated for (a brace
+					// inside a parameter name, e.g. "{/{-}"): from here on the table model is not consulted for Routes(),
+					// the two routers are still compared with each other
+					outsideEver = true
+				}
 			}
 		case "remove":
 			pattern := o.acc + s.Text
@@ -419,6 +438,10 @@ func check(c Case, st *rig.Stats) error {
 		// Routes()
 		fr, dr := fac.Routes(), des.Routes()
 		want := model.Render()
+		if outsideEver {
+			classes = append(classes, "pattern-outside-grammar(Routes-compared-between-routers-only)")
+			want = dr
+		}
 		for _, rr := range []map[string][]string{fr, dr} {
 			if len(rr) != len(want) {
 				return rig.Violf("routes", "%s: facade router Routes()=%v, desugared router Routes()=%v, model %v", when, fr, dr, want)
